@@ -101,8 +101,10 @@ def run_case(key, tier, res, only=None):
         elif x < 0.87:
             c = w.const_div()
             recipes.append(("const-div", c if rng.random() < 0.5 else [rng.choice(["le", "eq", "lt"]), c, w.numeric(1)]))
-        else:
+        elif x < 0.94:
             recipes.append(("exists-eq", w.exists_eq()))
+        else:
+            recipes.append(("exists-eq2", w.exists_eq2()))
     for idx, (cls, er) in enumerate(recipes):
         if only is not None and idx != only:
             continue
@@ -131,7 +133,7 @@ def run_case(key, tier, res, only=None):
                 res.count("changed")
             if mode == "problem" and any(f.name in static_names for f in fluents_in(e)):
                 res.count("static-folding-candidate")
-            if cls == "exists-eq" and not s.is_exists():
+            if cls.startswith("exists-eq") and not s.is_exists():
                 res.count("exists-eliminated")
             # FV containment
             res.mon()
@@ -202,7 +204,7 @@ def _consts(e):
 def thresholds(m):
     c = m["counters"]
     out = []
-    for k, n in (("class:const-div", 20), ("exists-eliminated", 5), ("static-folding-candidate", 20), ("class:bool-huge", 20), ("changed", 50)):
+    for k, n in (("class:exists-eq2", 20), ("class:const-div", 20), ("exists-eliminated", 5), ("static-folding-candidate", 20), ("class:bool-huge", 20), ("changed", 50)):
         if c.get(k, 0) < n:
             out.append(f"class {k} observed {c.get(k, 0)} < {n} times")
     return out
